@@ -48,3 +48,9 @@ Definition single_votesb (P : params) (cfg : config) : bool := for_honest P cfg 
 Definition hyp_allb (P : params) (cfg : config) : bool :=
   verified_intakeb P cfg && no_doubleb P cfg && empty_freeb P cfg && single_votesb P cfg
   && no_equivocationb P cfg.
+
+(** * The local rules (the mechanisms the property names), over the ghost log of signed blocks *)
+Definition commitments (nd : node) : list (skind * blk) :=
+  filter (fun x => match fst x with SCommit => true | _ => false end) (n_signed nd).
+Definition endorsements (e : bool) (nd : node) : list (skind * blk) :=
+  filter (fun x => match fst x with SEndorse => eqb (b_empty (snd x)) e | _ => false end) (n_signed nd).
